@@ -1036,6 +1036,13 @@ MUTANTS = [
             spawn_put();
         return true;""", """        my_successors.register_successor(r);
         return true;""")]),
+    dict(name='c14-rejected-put-resets-forwarding-flag', prop='C14', clause='D1', edits=[(FG_H,
+        "            case put_item: if (internal_push(tmp)) try_forwarding = true; break;", "            case put_item: try_forwarding = internal_push(tmp); break;")]),
+    dict(name='c14-remove-edge-notifies-continue-node-twice', prop='C14', clause='D4', edits=[(FG_H,
+        """        if (!std::is_same<T, continue_msg>::value) {
+            // TODO revamp: investigate why full qualification is necessary here
+            tbb::detail::d2::remove_predecessor(r, *this);
+        }""", """        tbb::detail::d2::remove_predecessor(r, *this);""")]),
     # ---------------------------------------------------------------- C15
     dict(name='c15-limiter-missing-dec', prop='C15', clause='D1', edits=[
         (FG_H, "        {\n            spin_mutex::scoped_lock lock(my_mutex);\n            --my_tries;\n            if (reserved) my_predecessors.try_release();",
@@ -1286,6 +1293,8 @@ BENIGN = [
         if( tokens_left )
             spawn_input_stage_task(ed);
     }""")]),
+    dict(name='c14-b-forwarding-flag-or-assigned', prop='C14', edits=[(FG_H,
+        "            case put_item: if (internal_push(tmp)) try_forwarding = true; break;", "            case put_item: try_forwarding = internal_push(tmp) || try_forwarding; break;")]),
     dict(name='c05-b-ratio-operands-commuted', prop='C05', edits=[('include/oneapi/tbb/blocked_range2d.h',
         "        if ( my_rows.size()*double(my_cols.grainsize()) < my_cols.size()*double(my_rows.grainsize()) ) {",
         "        if ( double(my_cols.grainsize())*my_rows.size() < double(my_rows.grainsize())*my_cols.size() ) {")]),
